@@ -58,8 +58,12 @@ with must_dead_oblock (o : oblock) {struct o} : list N :=
   match o with ONone => [] | OSome b => must_dead_block b end.
 
 (* ---- C03: decision points (id, weight) of one function ---- *)
+(* "each for or if clause of a statement-level comprehension contributes exactly one": a comprehension is given by the
+   number of [if] clauses that follow each of its [for] clauses; every for clause counts 1 and EVERY if clause counts 1.
+   (This is the property's reading.  The code counts at most one [if] per [for] clause - Flow.comp_cx - which is finding F8;
+   the difference is stated exactly by FlowMcCabe.surplus_ifs / Props C03_mccabe_up_to_extra_ifs.) *)
 Definition comp_weight (clauses : list nat) : nat :=
-  fold_right (fun nifs acc => 1 + (if Nat.ltb 0 nifs then 1 else 0) + acc) 0 clauses.
+  fold_right (fun nifs acc => 1 + nifs + acc) 0 clauses.
 
 Fixpoint dec_stmt (s : stmt) {struct s} : list (N * nat) :=
   match s with
